@@ -1,5 +1,6 @@
 import Poly.Proofs.NativeWitness
 import Poly.Generated.Guards
+import Poly.Props.C39
 /-!
 # C18 — Privileged native operations require the right witness
 
@@ -96,6 +97,35 @@ theorem privileged_tx_requires_signer (reg : Registry) (env : BlockEnv) (bs : Bl
     | err => cases hnf
     | diverge => cases hnf
     | panic => cases hnf
+
+/-- From signatures to the privileged effect (composition with the model of `checkTransactionSignatures`, C39): if
+the signer set of the transaction is what the validator attributes to its signature entries (`tx.signers = dedup addrs`),
+then a successful direct call of a guarded method means that one of the entries HAS the required address — the operator's
+m-of-n program address for operator methods, so nothing but an entry over exactly those keys with that threshold will do
+(up to a collision of the address hash, C39 `program_injective_address_or_collision`) — and that entry is valid: its single
+key's signature verifies, or its first m signatures decode and verify under m pairwise different listed keys. -/
+theorem privileged_tx_needs_valid_signature_entry {K S : Type}
+    (wf : S → Bool) (verify : K → S → Bool) (addr1 : K → Addr) (addrM : List K → Nat → Addr)
+    (entries : List (Poly.Model.Sig.Entry K S)) (addrs : List Addr)
+    (hsig : Poly.Model.Sig.checkTransactionSignatures wf verify addr1 addrM entries = .ok addrs)
+    (reg : Registry) (env : BlockEnv) (bs : BlockState) (tx : Tx)
+    (hsigners : tx.signers = Poly.Model.Sig.dedup addrs)
+    (addr : Addr) (m args : Bytes) (c : Contract)
+    (g : Guard) (req : Bytes → Addr) (due : Bool) (body : Bytes → Prog) (hg : g ≠ .none)
+    (hcode : decodeParam tx.code = some (addr, m, args)) (hreg : reg addr = some c)
+    (hm : lookupMethod (registerAll [] c) m = some (fun a => guarded g (req a) due (body a)))
+    (hok : (execTx leafHash reg env bs tx).2.ok = true) :
+    (∃ e ∈ entries, Poly.Proofs.Sig.entryAddr addr1 addrM e = req args ∧
+      ((∃ k s rest, e.keys = [k] ∧ e.sigs = s :: rest ∧ e.m = 1 ∧ wf s = true ∧ verify k s = true) ∨
+       (2 ≤ e.keys.length ∧ ∃ ps : List Nat, ps.length = e.m ∧ ps.Nodup ∧
+          ∀ x ∈ ps.zip (e.sigs.take e.m), ∃ k, e.keys[x.1]? = some k ∧ wf x.2 = true ∧ verify k x.2 = true))) ∨
+    (g = .operatorOrDue ∧ due = true) := by
+  rcases privileged_tx_requires_signer leafHash reg env bs tx addr m args c g req due body hg hcode hreg hm hok with h | h
+  · left
+    rw [hsigners] at h
+    obtain ⟨e, he, hea⟩ := ((Poly.Props.C39.signers_exact wf verify addr1 addrM entries addrs hsig).1 (req args)).mp h
+    exact ⟨e, he, hea, Poly.Props.C39.sig_sound wf verify addr1 addrM entries addrs hsig e he⟩
+  · exact Or.inr h
 
 /-- `commitDpos_due`: an epoch change forced without the operator's witness succeeds only when it is due. -/
 theorem commitDpos_due (inv : Inv) (s : Svc) (sm : List (Bytes × Handler)) (addr : Addr) (args : Bytes)
